@@ -418,7 +418,7 @@ def _run_wfm(c):
     return {"items": out}
 
 
-def _mk_value(c):
+def _mk_value0(c):
     import nitypes.bintime as bt
     from nitypes.scalar import Scalar
     from nitypes.vector import Vector
@@ -484,6 +484,15 @@ def run_impl(c):
     except Exception as e:  # the experiment itself failed (e.g. unpickling raised): reported as a disagreement
         import traceback
         return {"exc": vf.canon_exc(e), "trace": traceback.format_exc()[-600:]}
+
+
+def _mk_value(c):
+    x = _mk_value0(c)
+    if c.get("delunits"):
+        # the units entry removed through the dictionary view: part of the state like any other entry (or its absence)
+        for key in [k_ for k_ in x.extended_properties if k_.startswith("NI_UnitDescription")][:c["delunits"]]:
+            del x.extended_properties[key]
+    return x
 
 
 def _run_impl(c):
@@ -704,6 +713,8 @@ def gen_cases(rng, tier):
     for i in range(120 if not big else 1500):
         cases.append({"k": "scalar", "v": rng.randrange(len(PVALS)), "units": rng.choice([None, "", "V", "é"]), "p": [x for x in _props_desc(rng) if x[0] != "NI_UnitDescription"], "m": meth(),
                       "np": rng.choice([None, None, None, "f64", "str", "f64z"])})
+        if rng.random() < 0.25:
+            cases[-1]["delunits"] = 1
     for i in range(300 if not big else 5000):
         t = rng.choice(["TBool", "TInt", "TInt", "TFloat", "TStr"])
         init = [c18._val_of(rng, t) for _ in range(rng.choice([0, 1, 2, 3]))]
@@ -713,6 +724,8 @@ def gen_cases(rng, tier):
         if rng.random() < 0.15:
             ops.append({"op": "clear"})
         cases.append({"k": "vec", "t": t, "init": init, "ops": ops, "units": rng.choice(["", "V"]), "p": [x for x in _props_desc(rng) if x[0] != "NI_UnitDescription"], "m": meth()})
+        if rng.random() < 0.2:
+            cases[-1]["delunits"] = 1
     for kind in ("f64", "str", "enum", "f64_1"):
         for _ in range(2 if not big else 6):
             cases.append({"k": "vecx", "np": kind, "units": rng.choice(["", "V"]),
@@ -724,6 +737,8 @@ def gen_cases(rng, tier):
                       "xu": rng.choice(["", "s"]), "yu": rng.choice(["", "V"]), "p": [x for x in _props_desc(rng) if not x[0].startswith("NI_")], "m": meth()})
         if rng.random() < 0.2:
             cases[-1]["swapped"] = True
+        if rng.random() < 0.25:
+            cases[-1]["delunits"] = rng.choice([1, 2])
     return cases
 
 
